@@ -539,3 +539,138 @@ func displayKey(v ssa.Value) string {
 	}
 	return describeVal(v)
 }
+
+// R-WHOLE-INPUT (C18, C12): the reader the scanner consumes is the caller's input itself.
+func init() {
+	register(&Rule{Name: "R-WHOLE-INPUT", Min: 4,
+		Doc: "from every first-party place where program text enters (an opened file, a string or byte reader, a reader parameter of an entry point without first-party callers) to the scanner's bufio.NewReader, the reader value is handed on unchanged or through a constructor known to deliver every byte (os.Open, strings.NewReader, bytes.NewReader, bufio.NewReader); a truncating or otherwise unknown adaptor in between means part of the file is never parsed or typechecked",
+		Run: runWholeInput})
+}
+
+var wholeInputCtors = map[string]bool{
+	"os.Open": true, "strings.NewReader": true, "bytes.NewReader": true, "bytes.NewBuffer": true, "bytes.NewBufferString": true, "bufio.NewReader": true,
+}
+
+func runWholeInput(p *Program, r *RuleResult) {
+	// sink: the call of bufio.NewReader in package parser (the scanner's constructor)
+	type work struct {
+		fn  *ssa.Function
+		prm int
+	}
+	var queue []work
+	seenW := map[work]bool{}
+	ord := map[string]int{}
+	judged := 0
+	var judge func(fn *ssa.Function, v ssa.Value, what string, pos string, depth int)
+	judge = func(fn *ssa.Function, v ssa.Value, what string, pos string, depth int) {
+		name := fnName(fn)
+		if depth > 6 {
+			ord[name]++
+			r.add(name, fmt.Sprintf("whole-input#%d:%s", ord[name], what), Undecided, pos, "reader flow too deep to follow")
+			return
+		}
+		switch x := v.(type) {
+		case *ssa.MakeInterface:
+			judge(fn, x.X, what, pos, depth+1)
+			return
+		case *ssa.ChangeInterface:
+			judge(fn, x.X, what, pos, depth+1)
+			return
+		case *ssa.Parameter:
+			for i, prm := range fn.Params {
+				if prm == x {
+					w := work{fn, i}
+					if !seenW[w] {
+						seenW[w] = true
+						queue = append(queue, w)
+					}
+				}
+			}
+			return
+		case *ssa.Extract:
+			judge(fn, x.Tuple, what, pos, depth+1)
+			return
+		case *ssa.Phi:
+			for _, e := range x.Edges {
+				judge(fn, e, what, pos, depth+1)
+			}
+			return
+		case *ssa.UnOp:
+			if g, ok := x.X.(*ssa.Global); ok && g.Pkg != nil && g.Pkg.Pkg.Path() == "os" {
+				judged++
+				ord[name]++
+				r.add(name, fmt.Sprintf("whole-input#%d:%s", ord[name], what), Holds, pos, "the process's own "+g.Name())
+				return
+			}
+			if al, ok := x.X.(*ssa.Alloc); ok {
+				for _, st := range storesTo(al) {
+					judge(fn, st.Val, what, pos, depth+1)
+				}
+				return
+			}
+		case *ssa.Call:
+			sc := x.Common().StaticCallee()
+			if sc != nil && wholeInputCtors[sc.String()] {
+				judged++
+				ord[name]++
+				// bufio.NewReader(r): follow r
+				if sc.String() == "bufio.NewReader" {
+					judge(fn, x.Common().Args[0], what, pos, depth+1)
+					return
+				}
+				r.add(name, fmt.Sprintf("whole-input#%d:%s", ord[name], what), Holds, pos, "the input is "+sc.String()+"(…), which delivers every byte")
+				return
+			}
+			ord[name]++
+			cn := "a dynamic call"
+			if sc != nil {
+				cn = sc.String()
+			}
+			r.add(name, fmt.Sprintf("whole-input#%d:%s", ord[name], what), Violated, pos,
+				fmt.Sprintf("the reader handed towards the scanner is the result of %s, not the input itself: nothing shows that every byte of the program text reaches the parser (a size-limited or filtering reader lets the rest of the file go unparsed and unchecked while the prefix is accepted and run)", cn))
+			return
+		}
+		ord[name]++
+		r.add(name, fmt.Sprintf("whole-input#%d:%s", ord[name], what), Undecided, pos, "cannot classify the origin of the reader: "+describeVal(v))
+	}
+	found := false
+	for _, fn := range p.SrcFuncs {
+		if fn.Pkg == nil || fn.Pkg.Pkg.Path() != parserPkg || p.inGeneratedFile(fn) {
+			continue
+		}
+		for _, c := range p.callsIn(fn) {
+			if sc := c.Common().StaticCallee(); sc != nil && sc.String() == "bufio.NewReader" {
+				found = true
+				judge(fn, c.Common().Args[0], "scanner-source", p.instrPos(c), 0)
+			}
+		}
+	}
+	if !found {
+		r.add(parserPkg, "scanner-source", Undecided, "", "the scanner's bufio.NewReader call was not found")
+		return
+	}
+	for len(queue) > 0 {
+		w := queue[0]
+		queue = queue[1:]
+		callers := 0
+		for _, fn := range p.SrcFuncs {
+			if !p.isFirstParty(fn) {
+				continue
+			}
+			for _, c := range p.callsIn(fn) {
+				if c.Common().StaticCallee() != w.fn {
+					continue
+				}
+				callers++
+				args := c.Common().Args
+				if w.prm < len(args) {
+					judge(fn, args[w.prm], "argument-of-"+w.fn.Name(), p.instrPos(c), 0)
+				}
+			}
+		}
+		if callers == 0 {
+			r.note("entry point without first-party callers: %s (its reader parameter is the caller's input)", fnName(w.fn))
+		}
+	}
+	r.count("input sources judged", judged)
+}
